@@ -8,7 +8,7 @@
    three sources return is well-formed for the pointerified type. *)
 From Coq Require Import List NArith ZArith Bool.
 From Dials Require Import Base.Outcome Base.Runes Reflect.Ty Reflect.Ptrify Stack.Overlay Stack.StackSpec
-  Stack.Spine Stack.StackProofs Ez.SeqDials Ez.Ez Ez.EzProofs.
+  Stack.Spine Stack.StackProofs Ez.SeqDials Ez.Ez Ez.EzProofs Ez.EzFacts.
 Import ListNotations.
 Open Scope N_scope.
 
